@@ -10,7 +10,7 @@
      215/216 Toom-3 recomposition acc[i*j..]      217 u128 overflow in mul_with_carry
    `usize` arithmetic on lengths (x.len()*2, x1.len()+y1.len()+1, ...) is not range-checked:
    lengths are < 2^63 for any allocatable vector. *)
-From BigNum Require Import Base AddSub ShiftCore MulToomDeps.
+From BigNum Require Import Base AddSub ShiftCore Div.
 Open Scope Z_scope.
 
 (** Source-extracted parameters (tools/extractors/mul.py). *)
@@ -229,7 +229,7 @@ Definition bigint_from_slice (l : list Z) : bigint := from_biguint Plus (strip l
 Definition imul_small (x : bigint) (k : Z) : outcome bigint :=
   do m <- scalar_mul (mag x) k; Ret (from_biguint (sg x) m).
 
-(** `BigInt / 3u32`: from_biguint(sign, div_rem_digit(data, 3).0) *)
+(** `BigInt / 3u32`: from_biguint(sign, div_rem_digit(data, 3).0)  ([Div.div_rem_digit]) *)
 Definition idiv_small (x : bigint) (k : Z) : outcome bigint :=
   do r <- div_rem_digit (mag x) k; Ret (from_biguint (sg x) (fst r)).
 
